@@ -510,3 +510,35 @@ Proof.
   intros Hf Ha Hp Hv. rewrite store_expiry_ascii, Hp by assumption. simpl.
   rewrite representable_secs_val in Hv. rewrite max_age_cap_val. f_equal. f_equal. lia.
 Qed.
+
+(* ---------------------------------------------------------------------------- *)
+(* C03, labels: Age and ttl                                                        *)
+
+Lemma trunc_secs_nonneg d : 0 <= d -> 0 <= trunc_secs d.
+Proof. intros H. unfold trunc_secs. apply Z.quot_pos; [exact H|rewrite second_val; lia]. Qed.
+
+Theorem ttl_value hs us cached exp now t :
+  cs_ttl (make_cache_status hs us cached exp now) = Some t ->
+  t = Z.max 0 (trunc_secs (exp - now)) /\ 0 <= t /\ hs <> HsMiss.
+Proof.
+  unfold make_cache_status. simpl.
+  destruct cached; simpl; [|discriminate]. destruct hs; simpl; try discriminate;
+    intros H; inversion H; subst; (split; [reflexivity|split; [lia|discriminate]]).
+Qed.
+
+(* Age = initial age (the origin's own Age, if any) + whole seconds since the entry was stored *)
+Theorem age_value up_age stored_at now :
+  stored_at <= now ->
+  let init := match up_age with Some a => Z.max 0 a | None => 0 end in
+  init + trunc_secs (now - stored_at) <= max_int64 ->
+  current_age (Some stored_at) up_age stored_at now = init + trunc_secs (now - stored_at).
+Proof.
+  intros Hle init Hfit. unfold current_age.
+  replace (stored_at - stored_at) with 0 by lia.
+  assert (H0 : trunc_secs 0 = 0) by reflexivity. rewrite H0.
+  pose proof (trunc_secs_nonneg (now - stored_at) ltac:(lia)) as Hnn.
+  replace (match up_age with Some a => Z.max (Z.max 0 0) a | None => Z.max 0 0 end) with init
+    by (subst init; destruct up_age; lia).
+  assert (0 <= init) by (subst init; destruct up_age; lia).
+  rewrite wrap64_id by (rewrite min_int64_val; lia). lia.
+Qed.
